@@ -132,8 +132,20 @@ def main():
         m = manifest.generate()
         print("MANIFEST.json: %d checks, %d not_applicable" % (len(m["checks"]), len(m["not_applicable"])))
         sys.exit(0)
-    rc = {"setup": cmd_setup, "check": cmd_check, "replay": cmd_replay, "all": cmd_all}[args.cmd](args)
-    sys.stdout.flush()
+    # Every scratch directory of this run (worker scratch, per-process HOMEs, projects) is made below one directory
+    # of the run's own, which is removed when the run ends: pool workers are terminated without their atexit handlers,
+    # so directories made directly under /tmp would stay behind.
+    import shutil
+    import tempfile
+    run_root = tempfile.mkdtemp(prefix="ucgverif-run-")
+    tempfile.tempdir = run_root
+    os.environ["TMPDIR"] = run_root
+    try:
+        rc = {"setup": cmd_setup, "check": cmd_check, "replay": cmd_replay, "all": cmd_all}[args.cmd](args)
+        sys.stdout.flush()
+    finally:
+        tempfile.tempdir = None
+        shutil.rmtree(run_root, ignore_errors=True)
     sys.exit(rc)
 
 
